@@ -200,7 +200,15 @@ class Lib:
         if dotted == "typing.cast":
             return Builtin("cast", lambda I, a, k: a[1])
         if dotted == "functools.cache":
-            return Builtin("cache", lambda I, a, k: a[0])
+            # functools.cache(f) is f only where "the same key" means "the same arguments": keys are compared with == / hash,
+            # so 1, 1.0, True and IntEnum members of different enums with one value are ONE entry (seed C04h). The function is
+            # marked; Interp.call accepts a call of it only with arguments for which key equality is value equality.
+            def cache_deco(I, a, k):
+                if not isinstance(a[0], FuncVal):
+                    raise Unsupported("functools.cache of something that is not a plain function")
+                a[0].marks["cached"] = True
+                return a[0]
+            return Builtin("cache", cache_deco)
         if dotted == "functools.wraps":
             return Builtin("wraps", lambda I, a, k: Builtin("wraps.deco", lambda I2, a2, k2: a2[0]))
         if dotted == "abc.abstractmethod":
